@@ -86,6 +86,7 @@ type gen struct {
 	anyShow   string
 	symPkg    map[string]string
 	imported  []string // packages the current package imports by name
+	fnBase    int      // index of the first scope of the function being generated
 }
 
 const costLimit = 30000
@@ -340,6 +341,7 @@ type place struct {
 	assign bool // assignable
 	addr   bool // addressable
 	nilv   bool // rooted in a variable that may be nil
+	outer  bool // below a composite variable of the package or of an enclosing function
 }
 
 // places lists access paths of the variables in scope (depth <= 2).
@@ -351,7 +353,7 @@ func (g *gen) places() []place {
 		if t.under().K == KFunc && !g.opts.on("func-var-reassign") {
 			assign = false // finding escaping-func-variable-aliased
 		}
-		ps = append(ps, place{e, t, assign, addr, nilVar})
+		ps = append(ps, place{e: e, t: t, assign: assign, addr: addr, nilv: nilVar})
 		if d <= 0 {
 			return
 		}
@@ -404,15 +406,17 @@ func (g *gen) places() []place {
 			nilVar = v.Nil
 			n := len(ps)
 			rec(tx(v.Name), v.T, !v.RO, !v.RO, 2)
-			if si == 0 && !g.opts.on("global-nested-write") {
+			if si < g.fnBase && !g.opts.on("global-nested-write") {
 				// finding global-composite-nested-write: an element or a field below the first level of
-				// a package-level variable is read only (no assignment, no address)
+				// a package-level variable, or of a variable of an enclosing function, is read only
+				// (no assignment, no address)
 				for i := n + 1; i < len(ps); i++ {
 					if k := v.T.under().K; k == KStruct || k == KArray {
 						if s := ps[i].e.String(); strings.Count(s, ".")+strings.Count(s, "[") > strings.Count(v.Name, ".")+1 || strings.Contains(s, "[") {
 							ps[i].assign = false
 						}
 						ps[i].addr = false
+						ps[i].outer = true
 					}
 				}
 			}
